@@ -118,6 +118,32 @@ def alphabet_toggle(tier):
     ]
 
 
+def cfg4():
+    """INBOX(4): flag changes before and after an EXPUNGE that renumbers the messages they were reported for."""
+    from .common import cfg_basic
+
+    c = cfg_basic(PROP, 4, others=("other",), name="c04-four")
+    c["prelude"] = [{"s": "A", "op": "select", "m": "INBOX"}, {"s": "B", "op": "select", "m": "INBOX"}]
+    return c
+
+
+def alphabet_renumber(tier):
+    """One session changes flags and expunges (renumbering what follows) while the other stays quiet, then synchronises."""
+    A, B = "A", "B"
+    return [
+        {"s": A, "op": "store", "set": "3", "mode": "+", "flags": "\\Flagged"},
+        {"s": A, "op": "store", "set": "3", "mode": "+", "flags": "\\Answered"},
+        {"s": A, "op": "store", "set": "2", "mode": "+", "flags": "$Fwd"},
+        {"s": A, "op": "store", "set": "*", "mode": "+", "flags": "\\Seen"},
+        {"s": A, "op": "del", "set": "2"},
+        {"s": A, "op": "del", "set": "1"},
+        {"s": B, "op": "noop"},
+        {"s": B, "op": "fetch", "set": "1:*", "items": "(FLAGS)", "uid": True},
+        {"s": B, "op": "idle"},
+        {"s": B, "op": "done"},
+    ]
+
+
 def run(tier, seed, jobs):
     from .hcommon import run_h
 
@@ -131,6 +157,8 @@ def run(tier, seed, jobs):
         plans.append({"cfg_ref": ("vf.props.c04", "cfg", ["mixed"]), "alphabet": alphabet("quick"), "depth": 3, "label": "init=mixed narrow"})
     plans.append({"cfg_ref": ("vf.props.c04", "cfg", ["plain"]), "alphabet": alphabet_toggle(tier), "depth": 4 if tier == "quick" else 5,
                   "label": "init=plain, toggling alphabet (deep, narrow)"})
+    plans.append({"cfg_ref": ("vf.props.c04", "cfg4", []), "alphabet": alphabet_renumber(tier), "depth": 4 if tier == "quick" else 5,
+                  "label": "INBOX(4): flag changes around an EXPUNGE that renumbers, the other session quiet until it synchronises"})
     plans.append({"cfg_ref": ("vf.props.c04", "cfg", ["oddkw"]), "alphabet": alphabet_keywords(tier), "depth": 2 if tier == "quick" else 4,
                   "label": "init=oddkw: keywords that are pieces of system flag names through APPEND / COPY / MOVE / STORE"})
     return run_h(PROP, RULES, plans, ("C04",), jobs, seed,
